@@ -4,6 +4,7 @@
    hooks.  [reachable step init s] quantifies over ALL schedules (sequences of
    thread choices) of any length; page size, item list and number of Consume
    calls are arbitrary. *)
+From Coq Require Import Lia.
 From PP Require Import Gen.Src_queues Queues.UsqDefs Queues.UsqProofs Queues.RingDefs Queues.RingProofs Queues.PcqDefs Queues.PcqProofs.
 
 (* ---------- UnboundedSingleQueue (util/pcqueue.hh:238-300) ---------- *)
@@ -216,6 +217,17 @@ Theorem C16_pcq_blocked_only_without_partner :
       forall i todo, nth_error (q_threads s) i = Some (QProd QPWait todo) -> todo = []).
 Proof. intros n threads s Hn HF. exact (pcq_no_stuck_proof n Hn threads (initial_threads_wf threads HF) s). Qed.
 Print Assumptions C16_pcq_blocked_only_without_partner.
+
+(* every schedule is finite: each step of any thread decreases the total remaining work
+   (5 steps per Produce/Consume call), whatever the capacity *)
+Theorem C16_pcq_runs_finite :
+  forall n threads ls s,
+  run (pcq_step n) (pcq_init (pcq_empty_init n) (pcq_used_init n) threads) ls = Some s ->
+  length ls <= wsum tw threads.
+Proof.
+  intros n threads ls s H. pose proof (pcq_runs_bounded_proof n ls _ _ H) as G. simpl in G. lia.
+Qed.
+Print Assumptions C16_pcq_runs_finite.
 
 (* non-vacuity: two producers and one consumer on a 1-slot queue; a complete run delivers all three items,
    each producer's items in its own order *)
